@@ -359,16 +359,33 @@ let handle (x : sexp) : (string * string) list =
            | Some ("sub", s) -> if List.exists (function L [A "subinc"; _] -> true | _ -> false) obs && not (Hashtbl.mem reg_step s) then Hashtbl.replace reg_step s !idx
            | _ -> ())
         | _ -> ()) steps;
-    (* teardown by a foreign source: cancels observed while an updater call of another instance ran *)
+    (* teardown by a foreign source: a trigger context cancelled by a call of ANOTHER trigger's updater.
+       The observables of one scheduler step are not all the released actor's: an actor listed in the step's status
+       changes (ch) has run too, and an actor that was blocked before the step may have run from one blocking point to
+       the next without any status change (it got the lock the released actor gave up).  A cancel is therefore
+       attributed to the set of actors that may have performed it -- the released one, those in ch, those blocked
+       before the step -- and the clause only fires when EVERY one of them is a call of some other trigger's updater
+       (a client, shutdown, start goroutine, heartbeat or fan-out child among them is a legitimate cause of its own). *)
     let owner_of = Hashtbl.create 16 in
-    let tsteps = List.filter_map (function
-        | L [what; _; L (A "obs" :: obs); _] ->
+    let before : (string, mstatus) Hashtbl.t = Hashtbl.create 16 in
+    let tsteps = List.concat_map (function
+        | L [what; status; L (A "obs" :: obs); L (A "ch" :: chs)] ->
           let name = (match what with L [A "start"; A n; L (A k :: A a :: _)] ->
               (match k with "update" | "complete" | "error" | "done" -> Hashtbl.replace owner_of n (int_of_string a) | _ -> ()); n
                               | L [A "start"; A n; _] | L [A "go"; A n] -> n | _ -> "") in
-          let cs = List.filter_map (function L [A "cancel"; A s] -> Some (ni (int_of_string s)) | _ -> None) obs in
-          Some ((match Hashtbl.find_opt owner_of name with Some a -> Some (ni a) | None -> None), cs)
-        | _ -> None) steps in
+          let changed = List.filter_map (function L [A n; _] -> Some n | _ -> None) chs in
+          let blocked = Hashtbl.fold (fun n stt acc -> if stt = Blk && n <> name then n :: acc else acc) before [] in
+          let cands = List.sort_uniq compare (name :: changed @ blocked) in
+          let cs = List.filter_map (function L [A "cancel"; A s] -> Some (int_of_string s) | _ -> None) obs in
+          let entries = List.map (fun c ->
+              let owners = List.map (fun n -> Hashtbl.find_opt owner_of n) cands in
+              if List.exists (fun o -> o = None) owners then (None, [ni c])            (* a non-updater actor may have done it *)
+              else if List.mem (Some c) owners then (Some (ni c), [ni c])               (* its own updater may have done it *)
+              else ((match owners with Some o :: _ -> Some (ni o) | _ -> None), [ni c])) cs in
+          Hashtbl.replace before name (parse_status status);
+          List.iter (function L [A n; stx] -> Hashtbl.replace before n (parse_status stx) | _ -> ()) chs;
+          entries
+        | _ -> []) steps in
     if not (teardown_own_b tsteps) then add_spec "C13:teardown_has_cause a trigger context was cancelled by a call of another trigger's updater";
     (* The quiescence clauses need the premise of the theorems: nothing can move any more, and the resolver was shut
        down or every registered subscriber was asked to leave by its client or the source of ITS trigger said Done /
